@@ -266,6 +266,9 @@ func (ft *FT) callWritesSeen(c *ssa.CallCommon, seen map[*ssa.Function]bool) ([]
 			return nil, true
 		}
 	}
+	if c.IsInvoke() && ft.inertInterface(c.Value.Type()) {
+		return []string{"$next"}, false
+	}
 	if c.IsInvoke() {
 		if n, ok := types.Unalias(c.Value.Type()).(*types.Named); ok && n.Obj().Pkg() != nil && isStdPath(n.Obj().Pkg().Path()) {
 			return []string{"$next"}, false
@@ -468,6 +471,12 @@ func (ft *FT) call(st *State, guard Term, c *ssa.CallCommon, preArgs []Term, ins
 			ft.assume("true", app("<=", nx, ft.get(st, "$next")))
 			return results(st)
 		}
+	}
+	if c.IsInvoke() && ft.inertInterface(c.Value.Type()) {
+		ft.note("method call through an interface declared inert: " + name)
+		nx := ft.get(st, "$next")
+		ft.assume("true", app("<=", nx, ft.freshVersion(st, "$next")))
+		return results(st)
 	}
 	if c.IsInvoke() {
 		if n, ok := types.Unalias(c.Value.Type()).(*types.Named); ok && n.Obj().Pkg() != nil && isStdPath(n.Obj().Pkg().Path()) {
@@ -1264,6 +1273,22 @@ func immutablePointee(t types.Type) bool {
 	switch types.TypeString(t, nil) {
 	case "*regexp.Regexp":
 		return true
+	}
+	return false
+}
+
+// inertInterface: the contract files declare (`decl inert T`) that method calls through interface T do not modify
+// contract-visible memory (an assumption, listed in the evidence).
+func (ft *FT) inertInterface(t types.Type) bool {
+	n, ok := types.Unalias(t).(*types.Named)
+	if !ok || n.Obj().Pkg() == nil {
+		return false
+	}
+	for _, d := range ft.eng.cons.Decls[pkgKey(n.Obj().Pkg())] {
+		f := strings.Fields(d)
+		if len(f) == 2 && f[0] == "inert" && f[1] == n.Obj().Name() {
+			return true
+		}
 	}
 	return false
 }
